@@ -102,6 +102,16 @@ impl Scenario {
         }
     }
 
+    /// a party by name, or - when the scenario declares no parties (`n_parties == 0`) - its address as a
+    /// literal, which makes a template without any parameter possible
+    fn who(&self, i: usize) -> String {
+        if self.n_parties == 0 {
+            format!("0x{}", hex::encode(party_addr(i)))
+        } else {
+            PARTY[i].to_string()
+        }
+    }
+
     fn sum_src(&self, terms: &[Term]) -> String {
         terms.iter().map(|t| self.term_src(t)).collect::<Vec<_>>().join(" + ")
     }
@@ -118,7 +128,7 @@ impl Scenario {
             self.params.iter().map(|(n, _)| format!("{}: Int", n)).collect::<Vec<_>>().join(", ")
         ));
         for i in &self.ins {
-            s.push_str(&format!("  input{} {} {{\n    from: {},\n", if i.many { "*" } else { "" }, i.name, PARTY[i.party]));
+            s.push_str(&format!("  input{} {} {{\n    from: {},\n", if i.many { "*" } else { "" }, i.name, self.who(i.party)));
             if !i.min.is_empty() {
                 s.push_str(&format!("    min_amount: {},\n", self.sum_src(&i.min)));
             }
@@ -131,14 +141,14 @@ impl Scenario {
             s.push_str(&format!("  reference ref_{} {{\n    ref: 0x{}#{},\n  }}\n", k, hex::encode(&sref(*r).txid), sref(*r).index));
         }
         if let Some((p, terms)) = &self.collateral {
-            s.push_str(&format!("  collateral {{\n    from: {},\n", PARTY[*p]));
+            s.push_str(&format!("  collateral {{\n    from: {},\n", self.who(*p)));
             if !terms.is_empty() {
                 s.push_str(&format!("    min_amount: {},\n", self.sum_src(terms)));
             }
             s.push_str("  }\n");
         }
         for (oi, o) in self.outs.iter().enumerate() {
-            s.push_str(&format!("  output {} {{\n    to: {},\n", o.name.clone().unwrap_or_default(), PARTY[o.party]));
+            s.push_str(&format!("  output {} {{\n    to: {},\n", o.name.clone().unwrap_or_default(), self.who(o.party)));
             if o.change {
                 let mut e = self.ins.iter().map(|i| i.name.clone()).collect::<Vec<_>>().join(" + ");
                 for (oj, other) in self.outs.iter().enumerate() {
